@@ -8,17 +8,20 @@ _DRIVE_SPEC = """    ensures
                  && (r->Ok_0).request_id == be32(b.skip(4))
            &&& (b.len() >= 8 && old(self).state.abs() == m_init() && m_run(b.skip(8), m_init()) is Some) ==>
                  r is Ok && (final(self).state.abs(), final(self).reader.rest()) == m_run(b.skip(8), m_init()).unwrap()
+           &&& old(self).state.sizes() ==> final(self).state.sizes()
         }),"""
 
 _DRIVE_LOOP = """
         invariant_except_break
             scan_rest(self.reader.rest()) == scan_rest(b0.skip(8)),
             b0 == old(self).reader.rest(),
+            old(self).state.sizes() ==> self.state.sizes(),
             wf0 <==> (b0.len() >= 8 && old(self).state.abs() == m_init() && m_run(b0.skip(8), m_init()) is Some),
             wf0 ==> m_run(self.reader.rest(), self.state.abs()) == m_run(b0.skip(8), m_init()),
         ensures
             Some(self.reader.rest()) == scan_rest(b0.skip(8)),
             wf0 ==> Some((self.state.abs(), self.reader.rest())) == m_run(b0.skip(8), m_init()),
+            old(self).state.sizes() ==> self.state.sizes(),
         decreases self.reader.rest().len(),
 """
 
@@ -33,7 +36,7 @@ _PV_SPEC = """    ensures
                                   b.skip(2).skip(be16(b) as int).skip(2).take(be16(b.skip(2).skip(be16(b) as int)) as int)))
                ==> r is Ok && final(self).state.abs() == m_value(old(self).state.abs(), tag, str_of(lossy(b.skip(2).take(be16(b) as int))),
                                   b.skip(2).skip(be16(b) as int).skip(2).take(be16(b.skip(2).skip(be16(b) as int)) as int))
-           &&& !(r is Ok) ==> true
+           &&& old(self).state.sizes() ==> final(self).state.sizes()
         }),"""
 
 
@@ -41,7 +44,7 @@ def _front(ty):
     return [
         # generic `T: Into<Reader>` is outside Verus: the constructor's body (reader.into(), ParserState::new()) is trusted
         {'op': 'fn', 'path': f'{ty}::new', 'ret': 'r', 'attrs': ['#[verifier::external_body]'],
-         'spec': '    ensures r.fresh(),'},
+         'spec': '    ensures r.fresh(), r.sizes_ok(),'},
         {'op': 'fn', 'path': f'{ty}::parse_value', 'ret': 'r', 'spec': _PV_SPEC},
         {'op': 'fn', 'path': f'{ty}::parse_header_attributes', 'ret': 'r', 'spec': _DRIVE_SPEC,
          'loops': {0: _DRIVE_LOOP},
@@ -56,6 +59,7 @@ def _front(ty):
            &&& (self.fresh() && m_message(b) is Some) ==> r is Ok
                  && (r->Ok_0).1.sgroups().map_values(|g: IppAttributeGroup| abs_mgroup(g)) == m_message(b).unwrap().0
                  && (r->Ok_0).2.rest() == m_message(b).unwrap().1
+           &&& (self.sizes_ok() && r is Ok) ==> groups_sizes((r->Ok_0).1.sgroups())
         }),"""},
         {'op': 'fn', 'path': f'{ty}::parse', 'ret': 'r', 'w9_mut_self': True,
          'spec': """    ensures
@@ -65,6 +69,7 @@ def _front(ty):
                  && (r->Ok_0).shdr().request_id == be32(b.skip(4))
            &&& (self.fresh() && m_message(b) is Some) ==> r is Ok
                  && (r->Ok_0).sattrs().sgroups().map_values(|g: IppAttributeGroup| abs_mgroup(g)) == m_message(b).unwrap().0
+           &&& (self.sizes_ok() && r is Ok) ==> groups_sizes((r->Ok_0).sattrs().sgroups())
         }),"""},
     ]
 
@@ -85,12 +90,16 @@ impl<R> IppParser<R> {
     pub closed spec fn rest(&self) -> Seq<u8> { self.reader.rest() }
     /// nothing parsed yet
     pub closed spec fn fresh(&self) -> bool { self.state.abs() == m_init() }
+    /// every value held so far can be re-encoded
+    pub closed spec fn sizes_ok(&self) -> bool { self.state.sizes() }
 }
 impl<R> AsyncIppParser<R> {
     /// bytes the underlying stream will still deliver (ghost)
     pub closed spec fn rest(&self) -> Seq<u8> { self.reader.rest() }
     /// nothing parsed yet
     pub closed spec fn fresh(&self) -> bool { self.state.abs() == m_init() }
+    /// every value held so far can be re-encoded
+    pub closed spec fn sizes_ok(&self) -> bool { self.state.sizes() }
 }
 
 /// abstraction of a group held by the parser: delimiter and name -> abstract value
@@ -99,6 +108,14 @@ pub open spec fn abs_mgroup(g: IppAttributeGroup) -> MGroup {
 }
 
 impl ParserState {
+    /// every value held can be re-encoded without arithmetic overflow (C02: re-encoding what was parsed is total)
+    spec fn sizes(&self) -> bool {
+        &&& forall|i: int, j: int| 0 <= i < self.context@.len() && 0 <= j < self.context@[i]@.len() ==>
+                size_ok(aval(#[trigger] self.context@[i]@[j]))
+        &&& match self.current_group { Some(g) => attrs_sizes(g.sattrs()), None => true }
+        &&& groups_sizes(self.attributes.sgroups())
+    }
+
     /// abstraction function: the RFC-level machine state this parser state stands for
     spec fn abs(&self) -> MState {
         MState {
@@ -112,34 +129,41 @@ impl ParserState {
 } // verus!'''},
     {'op': 'item_attr', 'item': 'enum IppParseError', 'text': '#[verifier::external_derive]'},
     {'op': 'fn', 'path': 'list_or_value', 'ret': 'r',
-     'spec': '    ensures aval(r) == lov(abs_vals(list@)),'},
+     'spec': '''    ensures aval(r) == lov(abs_vals(list@)),
+        (forall|j: int| 0 <= j < list@.len() ==> size_ok(aval(#[trigger] list@[j]))) ==> size_ok(aval(r)),'''},
     {'op': 'fn', 'path': 'ParserState::new', 'ret': 'r',
-     'spec': '    ensures ({ let a = r.abs(); let b = m_init(); a.groups =~= b.groups && a.cur =~~= b.cur && a.name == b.name && a.stack =~~= b.stack }),'},
+     'spec': '    ensures r.sizes(), ({ let a = r.abs(); let b = m_init(); a.groups =~= b.groups && a.cur =~~= b.cur && a.name == b.name && a.stack =~~= b.stack }),'},
     {'op': 'fn', 'path': 'ParserState::add_last_attribute',
      'proofs': [{'at_start': True, 'text': 'proof { reveal(m_flush); }'}],
      'spec': '''    ensures
+        old(self).sizes() ==> final(self).sizes(),
         old(self).abs().stack.len() >= 1 ==> ({ let a = final(self).abs(); let b = m_flush(old(self).abs()); a.groups =~= b.groups && a.cur =~~= b.cur && a.name == b.name && a.stack =~~= b.stack }),'''},
     {'op': 'fn', 'path': 'ParserState::parse_delimiter', 'ret': 'r',
      'spec': """    ensures
         r is Ok <==> delimiter_tag_of(tag as int) is Some,
         r is Ok ==> Some(r->Ok_0) == delimiter_tag_of(tag as int),
+        old(self).sizes() ==> final(self).sizes(),
         r is Ok && m_delim_legal(old(self).abs()) ==> ({ let a = final(self).abs(); let b = m_delim(old(self).abs(), r->Ok_0); a.groups =~= b.groups && a.cur =~~= b.cur && a.name == b.name && a.stack =~~= b.stack }),""",
      'proofs': [{'at_start': True, 'text': 'proof { reveal(m_flush); reveal(m_delim); }'},
                 {'before': 'let tag = DelimiterTag::from_u8', 'optional': True,
                  'text': 'proof { axiom_delimiter_tag_from(tag as int); }'}]},
     {'op': 'fn', 'path': 'ParserState::parse_value', 'ret': 'r',
      'spec': '''    ensures
+        old(self).sizes() ==> final(self).sizes(),
         m_value_legal(old(self).abs(), tag, name, buf_seq(&value)) ==> r is Ok && ({ let a = final(self).abs(); let b = m_value(old(self).abs(), tag, name, buf_seq(&value)); a.groups =~= b.groups && a.cur =~~= b.cur && a.name == b.name && a.stack =~~= b.stack }),''',
      'loops': {0: {'iter_name': 'it', 'spec': '''
         invariant
             it.snapshot@.remaining() == arr0,
             vstd::laws_cmp::obeys_cmp::<String>(),
+            sz0 ==> forall|j: int| 0 <= j < arr0.len() ==> size_ok(aval(#[trigger] arr0[j])),
+            sz0 ==> forall|k: String| #[trigger] map@.contains_key(k) ==> size_ok(aval(map@[k])),
+            sz0 ==> forall|j: int| 0 <= j < values@.len() ==> size_ok(aval(#[trigger] values@[j])),
             ({ let acc = pair_fold(abs_vals(arr0), it.index@ as nat);
                abs_map(map@) =~= acc.0 && name == acc.1 && abs_vals(values@) =~= acc.2 }),
 '''}},
      'proofs': [
          {'at_start': True, 'text': '''proof { reveal(m_flush); reveal(m_value); reveal(m_value_legal); reveal(pair_map); }
-        let ghost s0 = self.abs(); let ghost body = buf_seq(&value);
+        let ghost s0 = self.abs(); let ghost body = buf_seq(&value); let ghost sz0 = self.sizes();
         let ghost legal = m_value_legal(s0, tag, name, body); let ghost nm = name;'''},
          {'before': 'if tag == ValueTag::BegCollection as u8 {', 'optional': True, 'text': '''
         let ghost s1 = if nm@.len() > 0 { let f = m_flush(s0); MState { groups: f.groups, cur: f.cur, name: Some(nm), stack: f.stack } } else { s0 };
@@ -159,7 +183,8 @@ impl ParserState {
          {'after': 'values.push(v);', 'optional': True, 'text': '''
                             proof { assert(abs_vals(values@) =~= acc.2.push(aval(v))); }'''},
          {'before': 'val_list.push(IppValue::Collection(map));', 'optional': True, 'text': '''
-                    proof { if legal { assert(abs_map(map@) =~= pair_map(abs_vals(arr0))); } }
+                    proof { if legal { assert(abs_map(map@) =~= pair_map(abs_vals(arr0))); }
+                            if sz0 { axiom_bt_order_set(map@.dom()); assert(size_ok(aval(IppValue::Collection(map)))); } }
 '''},
          {'after': 'val_list.push(IppValue::Collection(map));', 'optional': True, 'text': '''
                     proof { if legal { let a = self.abs(); let b = m_value(s0, tag, nm, body);
